@@ -49,7 +49,7 @@ def modelCacheBatchEval (E : Env) (sup : Ops) (asts : List Exp) (n : Nat) (extra
     M (List (List Nat)) := do
   let results ← getBatchSolutions E asts n extra
   let fe ← M.getFe
-  let exhausted := extra.isEmpty && (match asts with | [e] => fe.evalExh.contains e.id | _ => false)
+  let exhausted := !results.isEmpty && extra.isEmpty && (match asts with | [e] => fe.evalExh.contains e.id | _ => false)
   if results.length == n || exhausted then pure results
   else do
     let remaining := n - results.length
